@@ -3615,7 +3615,13 @@ fn comma_token_docs(token: Option<&LuaSyntaxToken>) -> Vec<DocIR> {
 
 fn comma_flat_separator(plan: &FormatPlan, token: Option<&LuaSyntaxToken>) -> Vec<DocIR> {
     let mut docs = comma_token_docs(token);
-    docs.extend(token_right_spacing_docs(plan, token));
+    if token.is_some() {
+        docs.extend(token_right_spacing_docs(plan, token));
+    } else {
+        // no `,` in the source (the fields are separated by `;` only): space the
+        // synthesized comma like a written one
+        docs.push(ir::space());
+    }
     docs
 }
 
